@@ -377,7 +377,7 @@ impl Shared<'_> {
             tags.push("state:pending-unmined-by-rewind");
         }
         tags.push(if m.target() < uni::N63 { "state:target-pre-nu6.3" } else { "state:target-post-nu6.3" });
-        if m.scanned_from > uni::F {
+        if m.gap.is_some() {
             tags.push("state:scan-gap-open");
         }
         self.add_outs(tags.into_iter().map(String::from).collect());
@@ -641,7 +641,7 @@ pub fn run(args: &Args) -> i32 {
         json!({
             "first": uni::F, "tip": uni::T0, "nu6_3": uni::N63, "retention_interval": uni::RETENTION,
             "notes": env.u.notes.iter().filter(|n| n.label.is_some()).map(|n| format!("{}:{:?}:{:?}:{:?}:{}@{}", n.label.unwrap(), n.owner, n.pool, n.scope, n.value, n.height)).collect::<Vec<_>>(),
-            "start_states": env.starts.iter().map(|s| json!({"name": s.0, "scanned_from": s.2, "tip": s.3})).collect::<Vec<_>>(),
+            "start_states": env.starts.iter().map(|s| json!({"name": s.0, "unscanned_gap": s.2, "tip": s.3})).collect::<Vec<_>>(),
             "pending": env.pend.iter().map(|p| json!({"spends": p.spends.iter().map(|i| env.u.notes[*i].label).collect::<Vec<_>>(), "build_target": p.build_target, "expiry": p.expiry, "fee": p.fee,
                        "outputs": p.outs.iter().map(|o| json!({"owner": format!("{:?}", o.owner), "value": o.value})).collect::<Vec<_>>()})).collect::<Vec<_>>(),
             "setup_s": t_setup,
